@@ -143,6 +143,7 @@ pub fn check_utc(rep: &mut Rep, w: &World, u: i128, file: Option<&LeapSecondsFil
     if nt {
         rep.nt(h64(&[1, u as u64, (u >> 64) as u64]));
     }
+    rep.log_event("utc2tai", || format!("\"u\":\"{}\",\"want\":\"{}\"", u, t));
     rep.sample("utc", || format!("UTC count {} ns => offset {} s, TAI count {}", u, off, t));
     let e = ep(u, TimeScale::UTC);
     match guard(|| {
